@@ -57,7 +57,7 @@ pub fn property() -> Property {
         id: 0,
         name: "round trip + foreign parameters + permutation + deletion",
         quick: 8_000,
-        thorough: 1_500_000,
+        thorough: 8_000_000,
         max_len: 400,
         max_threads: 0,
       },
@@ -65,7 +65,7 @@ pub fn property() -> Property {
         id: 1,
         name: "arbitrary parameter-list bytes: parse, re-serialise, re-parse is stable",
         quick: 4_000,
-        thorough: 800_000,
+        thorough: 4_000_000,
         max_len: 300,
         max_threads: 0,
       },
@@ -73,7 +73,7 @@ pub fn property() -> Property {
         id: 2,
         name: "ParticipantMessageData (CDR, both byte orders) and QosPolicies (parameter list) round trips",
         quick: 6_000,
-        thorough: 1_000_000,
+        thorough: 5_000_000,
         max_len: 120,
         max_threads: 0,
       },
